@@ -1812,3 +1812,69 @@ func copiedHelperFirstImportFamily() []*Program {
 	}
 	return out
 }
+
+// variadicBlankParamFamily: variadic injectors whose parameters are unnamed or blank: the
+// generated implementation invents the names and must keep the last parameter variadic (C01: same
+// parameter types as the template, checked by the driver's typed function variable and a call).
+func variadicBlankParamFamily() []*Program {
+	var out []*Program
+	names := [][2]string{{"", ""}, {"p", "_"}, {"_", "_"}, {"_", "opts"}, {"p", "opts"}}
+	n := 0
+	for _, nm := range names {
+		for _, varProv := range []bool{false, true} {
+			n++
+			b := NewPB(fmt.Sprintf("vbp%02d", n), "app")
+			pre, opt, top := b.Carrier(0, "Prefix"), b.Carrier(0, "Opt"), b.Carrier(0, "Top")
+			f := b.Func(0, "NewTop", top, false, false, pre, SliceOf(opt))
+			f.Variadic = varProv
+			in := b.Inj("Init", top, false, false, []Param{{Name: nm[0], Ty: pre}, {Name: nm[1], Ty: SliceOf(opt)}}, ItemRef(f.ID))
+			in.Variadic = true
+			// a second one with only the variadic parameter
+			g := b.Func(0, "NewOpts", PtrTo(opt), false, false, SliceOf(opt))
+			in2 := b.Inj("InitOnly", PtrTo(opt), false, false, []Param{{Name: nm[1], Ty: SliceOf(opt)}}, ItemRef(g.ID))
+			in2.Variadic = true
+			cell := fmt.Sprintf("variadic-injector/param-names=%q,%q/variadic-provider=%v", nm[0], nm[1], varProv)
+			b.P.Note = cell
+			b.P.Feat = map[string]string{"cell": cell}
+			out = append(out, b.P)
+		}
+	}
+	return out
+}
+
+// localShadowsSetVarFamily: a function-local variable / constant spelled like a package-level
+// provider set variable (declared in a file before or after the set's own file) must not be
+// taken for the set: the injector gets the package-level set's provider (C02, C10).
+func localShadowsSetVarFamily() []*Program {
+	var out []*Program
+	n := 0
+	for _, file := range []string{"zz_local.go", "aa_local.go"} {
+		for _, form := range []string{"var", "short", "const", "nested-closure"} {
+			n++
+			b := NewPB(fmt.Sprintf("lss%02d", n), "app")
+			dep, top := b.Carrier(0, "Dep"), b.Carrier(0, "Top")
+			prod := b.Func(0, "NewProd", dep, false, false)
+			b.Func(0, "NewFake", dep, false, false)
+			nt := b.Func(0, "NewTop", top, false, false, dep)
+			set := b.Set(0, "MainSet", ItemRef(prod.ID))
+			b.Inj("Init", top, false, false, nil, SetRef(set.ID), ItemRef(nt.ID))
+			var body string
+			switch form {
+			case "var":
+				body = "\tvar MainSet = wire.NewSet(NewFake)\n\treturn MainSet\n"
+			case "short":
+				body = "\tMainSet := wire.NewSet(NewFake)\n\treturn MainSet\n"
+			case "const":
+				body = "\tconst MainSet = 7\n\t_ = wire.NewSet(NewFake)\n\treturn MainSet\n"
+			case "nested-closure":
+				body = "\treturn func() interface{} {\n\t\tvar MainSet = wire.NewSet(NewFake)\n\t\treturn MainSet\n\t}()\n"
+			}
+			b.P.Extra = map[string]string{"0/" + file: "package app\n\nimport \"github.com/google/wire\"\n\nfunc fakes() interface{} {\n" + body + "}\n\nvar _ = fakes\n"}
+			cell := fmt.Sprintf("local-named-like-set-variable/form=%s/file=%s", form, file)
+			b.P.Note = cell
+			b.P.Feat = map[string]string{"cell": cell}
+			out = append(out, b.P)
+		}
+	}
+	return out
+}
